@@ -65,6 +65,8 @@ static void cmd_exe(Toks& t, std::ostream& os) {
     os << ' ' << o.gi << ' ' << o.pi << ' ' << o.kind << ' ' << hexd(o.gd) << ' ' << o.jt << ' ' << o.et << ' ' << hexd(o.spr) << ' ' << hexd(o.dlt);
   os << " F " << hexd(co.delta_) << ' ' << hexd(co.group_delta_) << ' ' << (int)co.join_type_ << ' ' << (int)co.end_type_
      << ' ' << hexd(co.steps_per_rad_) << ' ' << hexd(co.temp_lim_);
+  // what CheckReverseOrientation decides for these groups (fill rule Negative / reversal flag of the clean-up union)
+  os << " C " << (co.CheckReverseOrientation() ? 1 : 0);
 }
 
 // plain public run only (used for the sanitizer variant and for speed)
